@@ -612,7 +612,18 @@ def _helper_pushes(repo, h: Fn, cal, call):
                 total = total + n.scale(inner.const)
             elif isinstance(st, ast.For):
                 if any(push_size(x) for x in ast.walk(st)):
-                    return f"for-loop with pushes"
+                    n = _for_count(h, st, argmap)
+                    if n is None:
+                        return f"for-loop with pushes"
+                    inner = Lin.c(0)
+                    for x in ast.walk(ast.Module(body=st.body, type_ignores=[])):
+                        ps = push_size(x)
+                        if ps is None:
+                            return f"unbounded push {norm(x)[:40]} inside a loop"
+                        inner = inner + ps
+                    if any(isinstance(x, (ast.While, ast.For)) for b in st.body for x in ast.walk(b)) or not inner.is_const():
+                        return "nested loops / non-constant pushes in loop"
+                    total = total + n.scale(inner.const)
             elif isinstance(st, (ast.If, ast.With, ast.Try)):
                 for x in ast.walk(st):
                     ps = push_size(x)
@@ -631,6 +642,21 @@ def _helper_pushes(repo, h: Fn, cal, call):
     if err:
         return None, err
     return total, ""
+
+
+def _for_count(h: Fn, loop: ast.For, argmap):
+    """iterations of `for V in range(len(P) - 2, -1, -1)` (descending to 0) or `range(len(P) - 1)`: len(arg) - 1"""
+    it = loop.iter
+    if not (isinstance(it, ast.Call) and call_name(it) == "range" and not it.keywords and not loop.orelse):
+        return None
+    if any(isinstance(x, (ast.Break, ast.Continue, ast.Return)) for b in loop.body for x in ast.walk(b)):
+        return None
+    args = [h.expand(a, 3) for a in it.args]
+    for pname, arg in argmap.items():
+        L = f"len({pname})"
+        if args in ([f"{L} - 2", "-1", "-1"], [f"{L} - 1"], ["1", L], ["0", f"{L} - 1"]):
+            return Lin.sym(f"len({arg})") - 1
+    return None
 
 
 def _loop_count(h: Fn, loop: ast.While, argmap):
